@@ -323,6 +323,23 @@ func checkC17(c C17Case, o *Obs) error {
 			return fmt.Errorf("Sequences(n=%d,k=%d) on the first %d sequences followed by Add of the rest gives %v, one call gives %v (seqs %q)", c.N, c.K, cut, v, base, c.Seqs)
 		}
 	}
+	// two sketches under construction at the same time: Add calls on one alternate with Add calls
+	// on the other (same sequences in reverse order and lower case); both end up as the sketch
+	if len(seqs) >= 2 {
+		var a, b *minhash.MinHash[uint64]
+		if p := catch(func() {
+			a, b = minhash.New[uint64](c.N), minhash.New[uint64](c.N)
+			for i := range seqs {
+				mash.Add(a, c.K, bytes.Clone(seqs[i]))
+				mash.Add(b, c.K, bytes.ToLower(seqs[len(seqs)-1-i]))
+			}
+		}); p != nil {
+			return fmt.Errorf("two sketches built with alternating Add calls panicked: %v", p)
+		}
+		if va, vb := a.View(), b.View(); !slices.Equal(va, base) || !slices.Equal(vb, base) {
+			return fmt.Errorf("two sketches built with alternating Add calls (the second from the same sequences in reverse order and lower case) give %v and %v, Sequences gives %v (seqs %q, n=%d, k=%d)", va, vb, base, c.Seqs, c.N, c.K)
+		}
+	}
 	// a smaller sketch is the tail of the larger one
 	if n2 := c.N2; n2 >= 1 && n2 < c.N {
 		small, err := sketchView(n2, c.K, seqs)
